@@ -437,6 +437,12 @@ class Phase(object):
     def processSpaceCharacters(self, token):
         self.tree.insertText(token["data"])
 
+    def processCharactersKeepSpaces(self, token):
+        # only the whitespace of the token is kept
+        spaces = "".join(c for c in token["data"] if c in spaceCharacters)
+        if spaces:
+            return self.processSpaceCharacters({"type": tokenTypes["SpaceCharacters"], "data": spaces})
+
     def processStartTag(self, token):
         # Note the caching is done here rather than BoundMethodDispatcher as doing it there
         # requires a circular reference to the Phase, and this ends up with a significant
@@ -2048,6 +2054,7 @@ class InColumnGroupPhase(Phase):
         self.endTagColgroup(impliedTagToken("colgroup"))
         if not ignoreEndTag:
             return token
+        return self.processCharactersKeepSpaces(token)
 
     def startTagCol(self, token):
         self.tree.insertElement(token)
@@ -2688,6 +2695,7 @@ class InFramesetPhase(Phase):
 
     def processCharacters(self, token):
         self.parser.parseError("unexpected-char-in-frameset")
+        return self.processCharactersKeepSpaces(token)
 
     def startTagFrameset(self, token):
         self.tree.insertElement(token)
@@ -2743,6 +2751,7 @@ class AfterFramesetPhase(Phase):
 
     def processCharacters(self, token):
         self.parser.parseError("unexpected-char-after-frameset")
+        return self.processCharactersKeepSpaces(token)
 
     def startTagNoframes(self, token):
         return self.parser.phases["inHead"].processStartTag(token)
@@ -2822,6 +2831,7 @@ class AfterAfterFramesetPhase(Phase):
 
     def processCharacters(self, token):
         self.parser.parseError("expected-eof-but-got-char")
+        return self.processCharactersKeepSpaces(token)
 
     def startTagHtml(self, token):
         return self.parser.phases["inBody"].processStartTag(token)
